@@ -104,13 +104,28 @@ def rawiter_loop(I, n, spec, script):
             data = SSeq(data.t, bytes)
     I.assign_target(n.target, (opcode, data, I.wrap_int(pos)))
     I.run_hints(spec, 'body', ghost)
-    m0 = None
+    head_snap = I.snapshot()
+    ghost['__head__'] = head_snap
     try:
         I.exec_block(n.body)
     except BreakSig:
         return
     except ContinueSig:
         pass
+    except PyRaise as pr:
+        if spec.step_raises:
+            allowed = []
+            for (cn, when) in spec.step_raises:
+                cls = I.eval_clause_value(cn, ghost)
+                if issubclass(pr.exc.cls, cls):
+                    allowed.append(I.eval_clause(when, ghost) if when is not None else z3.BoolVal(True))
+            I.oblige(z3.Or(*allowed) if allowed else z3.BoolVal(False), 'step-raises',
+                     'operation raises %s only when the reference step fails' % pr.exc.cls.__name__, where)
+        raise
+    if spec.step_ensures:
+        se_ = dict(ghost)
+        for e in spec.step_ensures:
+            I.oblige(I.eval_clause(e, se_), 'step-post', ast.unparse(e), where)
     nxt_pos = I.int_term(pure(sp.next_i, sval, posv))
     nxt = {'_pos': I.wrap_int(nxt_pos), '_k': I.wrap_int(kk + 1), '__loop_entry__': loop_entry}
     I.run_hints(spec, 'body_end', nxt)
